@@ -48,8 +48,15 @@ def main():
                       "kind_free_text": "Lean 4 model + theorems (lake project Py4hwV), Gen/ regenerated from /repo by harness/py2lean.py on every run, line-protocol drivers under lean/Drv for the correspondence"}],
          "checks": [], "not_applicable": [],
          "notes": "fix: commits in /repo and the recorded findings are listed in known_findings.json (status fixed / known) and DESIGN.md §11; seeded changes and which check catches which: seeded/*/meta.json and DESIGN.md §12. Every check was run under VERIF_SEED 0-8 on the unchanged tree (tools/seed_sweep.sh)."}
+    p8 = os.path.join(V, 'tools', 'manifest_round8.json')
+    add8 = json.load(open(p8)) if os.path.exists(p8) else {}
     for pid in sorted(checks):
-        c = checks[pid]
+        c = dict(checks[pid])
+        if pid in add8:
+            c['text'] = c['text'] + ' ROUND 8: ' + add8[pid].get('text', '')
+            if add8[pid].get('note_replace'):
+                for a_, b_ in add8[pid]['note_replace']:
+                    c['note'] = c['note'].replace(a_, b_)
         m['checks'].append({"property_id": pid, "quick_cmd": f"./check {pid} --tier quick", "thorough_cmd": f"./check {pid} --tier thorough",
                             "evidence_file": f"evidence/{pid}.json", "replay_cmd_template": f"./check {pid} --replay {{path}}",
                             "engine": "lean4-proof",
